@@ -1,5 +1,6 @@
 /* fact.c — factor/solve oracles in extended precision (independent of the library's kernels) */
 #define _GNU_SOURCE
+#include <float.h>
 #include "slu_mt_ddefs.h"
 #include "fact.h"
 #include <math.h>
@@ -121,6 +122,32 @@ ld backward_error(const slu_vt *vt, csc_q *F, int op, const void *X, int ldx, co
     hx_free(r); hx_free(den); return w;
 }
 
+/* exact (extended precision) solve with the returned factors: does some intermediate or final magnitude leave the range of the
+   working precision?  Then a non-finite X is the correct floating-point outcome (the rounding-error model of C01/C07/C08 assumes no
+   overflow); otherwise it is a violation. */
+static int exact_solve_overflows(const slu_vt *vt, dense_lu *D, const int_t *perm_r, const int_t *perm_c, int op, const void *B0, int ldb, int k, ld *maxmag)
+{
+    int n = D->n; zq *v = hx_calloc(n + 1, sizeof(zq)); ld mx = 0;
+    for (int i = 0; i < n; ++i) { zq b; el_get(vt, B0, (long)k * ldb + i, &b.re, &b.im); v[op == 0 ? perm_r[i] : perm_c[i]] = b; }
+    if (op == 0) {
+        for (int j = 0; j < n; ++j) { zq yj = v[j]; if (yj.re == 0 && yj.im == 0) continue; const zq *Lj = &D->L[(size_t)j * n];
+            for (int i = j + 1; i < n; ++i) if (Lj[i].re != 0 || Lj[i].im != 0) { v[i] = zq_sub(v[i], zq_mul(Lj[i], yj)); ld a = zq_abs(v[i]); if (a > mx) mx = a; } }
+        for (int j = n - 1; j >= 0; --j) { const zq *Uj = &D->U[(size_t)j * n]; v[j] = zq_div(v[j], Uj[j]); ld a = zq_abs(v[j]); if (a > mx || a != a) mx = a != a ? INFINITY : a;
+            for (int i = 0; i < j; ++i) if (Uj[i].re != 0 || Uj[i].im != 0) { v[i] = zq_sub(v[i], zq_mul(Uj[i], v[j])); ld c = zq_abs(v[i]); if (c > mx) mx = c; } }
+    } else {
+        for (int j = 0; j < n; ++j) { const zq *Uj = &D->U[(size_t)j * n]; zq sacc = v[j];
+            for (int i = 0; i < j; ++i) if (Uj[i].re != 0 || Uj[i].im != 0) { zq u = Uj[i]; if (op == 2) u.im = -u.im; sacc = zq_sub(sacc, zq_mul(u, v[i])); }
+            zq d = Uj[j]; if (op == 2) d.im = -d.im; v[j] = zq_div(sacc, d); ld a = zq_abs(v[j]); if (a > mx || a != a) mx = a != a ? INFINITY : a; }
+        for (int i = n - 1; i >= 0; --i) { const zq *Li = &D->L[(size_t)i * n]; zq sacc = v[i];
+            for (int r2 = i + 1; r2 < n; ++r2) if (Li[r2].re != 0 || Li[r2].im != 0) { zq l = Li[r2]; if (op == 2) l.im = -l.im; sacc = zq_sub(sacc, zq_mul(l, v[r2])); }
+            v[i] = sacc; ld a = zq_abs(v[i]); if (a > mx) mx = a; }
+    }
+    hx_free(v);
+    if (maxmag) *maxmag = mx;
+    ld realmax = vt->is_single ? (ld)FLT_MAX : (ld)DBL_MAX;
+    return !(mx < realmax / 64);
+}
+
 int check_residual(const slu_vt *vt, csc_q *F, dense_lu *D, const int_t *perm_r, const int_t *perm_c, int op,
                    const void *X, int ldx, const void *B0, int ldb, int nrhs, double *worst_ratio, char *msg, size_t mn)
 {
@@ -129,7 +156,9 @@ int check_residual(const slu_vt *vt, csc_q *F, dense_lu *D, const int_t *perm_r,
     int bad = 0; ld worst = 0;
     for (int k = 0; k < nrhs && !bad; ++k) {
         for (int j = 0; j < n; ++j) { zq x; el_get(vt, X, (long)k * ldx + j, &x.re, &x.im);
-            if (!isfinite((double)x.re) || !isfinite((double)x.im)) { bad = 1; snprintf(msg, mn, "X(%d,%d) is not finite", j, k); break; }
+            if (!isfinite((double)x.re) || !isfinite((double)x.im)) { ld mm = 0;
+                if (exact_solve_overflows(vt, D, perm_r, perm_c, op, B0, ldb, k, &mm)) verdict_skip("non-finite X, and the exact solve with the returned factors leaves the range of the working precision (max magnitude %.2Le)", mm);
+                bad = 1; snprintf(msg, mn, "X(%d,%d) is not finite (the exact solve with the returned factors stays below %.2Le)", j, k, mm); break; }
             if (op == 0) y[perm_c[j]] = zq_abs(x); else y[perm_r[j]] = zq_abs(x); }
         if (bad) break;
         residual(vt, F, op, X, ldx, B0, ldb, k, r, NULL);
